@@ -106,6 +106,12 @@ pub async fn init_analysis(
     emmyrc: Arc<Emmyrc>,
     open_files: Vec<(lsp_types::Uri, String)>,
 ) {
+    // Creating the progress task waits for a client response, which only the main loop can route:
+    // do it before taking the analysis write lock, which the main loop needs for `didChange`.
+    status_bar
+        .create_progress_task(ProgressTask::LoadWorkspace)
+        .await;
+
     let mut mut_analysis = analysis.write().await;
 
     // update config
@@ -115,9 +121,6 @@ pub async fn init_analysis(
         log::info!("current config : {}", emmyrc_json);
     }
 
-    status_bar
-        .create_progress_task(ProgressTask::LoadWorkspace)
-        .await;
     status_bar.update_progress_task(
         ProgressTask::LoadWorkspace,
         None,
